@@ -1,11 +1,22 @@
+// Package c15: only correctly signed, fresh transactions take effect.
+//
+// The harness keeps its own table of signing identities — regular accounts
+// (secp256k1, ed25519, k-of-n multisig) and session accounts — with (account
+// number, sequence, public key set?) and a registry of how every signature
+// byte string it ever produced was made (which key, which chain id, account
+// number, sequence, which body). From these alone it decides whether a
+// transaction byte string must pass the ante handler. Every transaction is
+// delivered to the real gno.land application; rejected ones alone in a block,
+// so that the complete committed state (all main-store keys, all GnoVM keys)
+// can be compared before/after through the independent audit view.
 package c15
 
 import (
 	"fmt"
-	"time"
+	"math/rand/v2"
 
 	"github.com/gnolang/gno/gno.land/pkg/gnoland"
-	"github.com/gnolang/gno/tm2/pkg/sdk/bank"
+	"github.com/gnolang/gno/tm2/pkg/crypto"
 	"github.com/gnolang/gno/tm2/pkg/std"
 
 	"verifharness/checks/c15/txkit"
@@ -15,70 +26,323 @@ import (
 )
 
 func init() {
-	vf.Register(&vf.Check{ID: "C15", Level: "exploration", Rule: "probe", Run: run})
+	vf.Register(&vf.Check{
+		ID:    "C15",
+		Level: "exploration",
+		Rule: "case = one transaction byte string delivered to the real application: a valid template (bank send, realm call, multi-message tx with 2–3 distinct signers and repeated signers, failing-message tx; signed by secp256k1, ed25519, k-of-n multisig and session keys) × one mutation " +
+			"(signature bit flip, wrong chain id / account number / sequence±1, signatures rotated / duplicated / missing / extra, foreign key, foreign or wrong-type public key, public key omitted, first-use address mismatch, multisig k−1 / wrong or resized bit array / sub-key over other sequence, " +
+			"session key revoked / expired / re-created / confused with its master, body altered after signing, gas 1 / above block max, unaffordable fee, single-bit flips of the whole tx bytes, fee below the node / block minimum in CheckTx) or one resubmission (same block, next block, after restart); " +
+			"oracle = harness-owned identity table + signature registry; non-trivial = mutated or resubmitted tx, or a valid tx with ≥2 signers / multisig / session signer; distinct by (chain, height, index, template, mutation)",
+		Run: run,
+	})
+}
+
+type chainPlan struct {
+	id     string
+	groups []string
+	seed   uint64
 }
 
 func run(c *vf.Ctx) {
-	t0 := time.Now()
-	e, err := txkit.Start(chainsim.Options{}, func(ch *chainsim.Chain) gnoland.GnoGenesisState { return hist.Genesis(ch) })
+	var plans []chainPlan
+	sets := [][]string{{"single", "multi", "unknown"}, {"multisig", "session", "fees"}}
+	reps := c.N(1, 3)
+	for rep := 0; rep < reps; rep++ {
+		for si, gs := range sets {
+			plans = append(plans, chainPlan{id: fmt.Sprintf("%c%d", 'A'+si, rep), groups: gs, seed: uint64(c.Seed)*100 + uint64(rep*2+si)})
+		}
+	}
+	c.Parallel(len(plans), 6, 1500, func(i int, rng *rand.Rand) {
+		runChain(c, plans[i], rng, i)
+	})
+	c.Assume("unforgeability: a byte string that was not produced by the key's Sign over exactly the expected sign doc is not a valid signature (bit-flipped and foreign signatures must not verify)")
+	c.Assume("account numbers are learned from committed state when an identity first appears; from then on the table is maintained by the harness alone and compared with the chain after every block")
+	c.Assume("gas limits of generated transactions are either 1, above the block maximum, or far above what the ante handler needs; session spend limits are far above what C15 spends (limits are C16's subject)")
+	c.Assume("a transaction is 'accepted' when it passes the ante handler (sequence increments and fee are then due even if a message fails later)")
+	for _, k := range []string{"mut:sigflip", "mut:wrong-chain", "mut:accnum+1", "mut:seq+1", "mut:seq-1", "mut:signatures-rotated", "mut:duplicated-signature", "mut:missing-last-signature", "mut:extra-signature",
+		"mut:wrong-key", "mut:wrong-pubkey-type", "mut:msig-k-minus-1", "mut:msig-bits-point-elsewhere", "mut:replay-same-block", "mut:replay-next-block", "mut:replay-after-restart",
+		"mut:session-revoked", "mut:session-expired", "mut:session-recreated-old-tx", "rejected:pubkey-address-mismatch", "rejected:insufficient-funds-for-fee", "mut:tamper-messages", "mut:txbitflip"} {
+		c.RequireCounter(k, 1)
+	}
+	c.RequireCounter("accepted", 30)
+	c.RequireCounter("accepted:multi-3-signers-with-repeat", 1)
+	c.RequireCounter("accepted:multisig-send", 1)
+	c.RequireCounter("accepted:session-send", 1)
+	c.RequireCounter("accepted_variant:msig-all-n", 1)
+	c.RequireCounter("rejected_with_full_state_diff_checked", 150)
+	c.RequireCounter("checktx_fee_rejections", 2)
+	c.RequireCounter("restarts", 1)
+}
+
+type world struct {
+	alice, bob, carol, dave *holder
+	erin, fred              *holder // ed25519
+	msig, msig1, big8       *holder
+	poor, zed, nobody       *holder
+}
+
+func runChain(c *vf.Ctx, p chainPlan, rng *rand.Rand, idx int) {
+	r := &runner{c: c, id: p.id, rng: rng, keys: map[crypto.Address]*txkit.Key{}}
+	r.m = newModel(3_000_000_000)
+	var w world
+	var extra []*txkit.Key
+	mk := func(k *txkit.Key, fund int64) *holder {
+		h := r.m.addKey(k)
+		r.keys[k.Addr] = k
+		if fund > 0 {
+			extra = append(extra, k)
+		}
+		return h
+	}
+	funds := map[string]int64{}
+	fundOf := func(k *txkit.Key, n int64) *txkit.Key { funds[k.Name] = n; return k }
+	w.erin = mk(fundOf(txkit.Ed("erin-ed"), 1e12), 1)
+	w.fred = mk(fundOf(txkit.Ed("fred-ed"), 1e12), 1)
+	w.msig = mk(fundOf(txkit.Multi("msig23", 2, txkit.Secp("ms-a"), txkit.Ed("ms-b"), txkit.Secp("ms-c")), 1e12), 1)
+	w.msig1 = mk(fundOf(txkit.Multi("msig12", 1, txkit.Ed("ms-d"), txkit.Ed("ms-e")), 1e12), 1)
+	var subs []*txkit.Key
+	for i := 0; i < 8; i++ {
+		subs = append(subs, txkit.Secp(fmt.Sprintf("big-%d", i)))
+	}
+	w.big8 = mk(fundOf(txkit.Multi("big8", 2, subs...), 1e12), 1)
+	w.poor = mk(fundOf(txkit.Secp("poor"), 30_000), 1)
+	w.zed = mk(fundOf(txkit.Secp("zed"), 1e12), 1)
+	w.nobody = mk(txkit.Secp("nobody"), 0)
+	opts := chainsim.Options{}
+	if has(p.groups, "fees") {
+		opts.MinGasPrices = "3ugnot/1000gas"
+	}
+	e, err := txkit.Start(opts, func(ch *chainsim.Chain) gnoland.GnoGenesisState {
+		st := hist.Genesis(ch)
+		for _, k := range extra {
+			st.Balances = append(st.Balances, gnoland.Balance{Address: k.Addr, Amount: std.Coins{{Denom: "ugnot", Amount: funds[k.Name]}}})
+		}
+		return st
+	})
 	if err != nil {
 		panic(err)
 	}
-	c.Logf("start %v main=%d base=%d", time.Since(t0), len(e.Last.Main.Keys), len(e.Last.Base.Keys))
-	for i := 0; i < 3; i++ {
-		t1 := time.Now()
-		o := e.Block(5)
-		c.Logf("empty block %v dif=%v %v", time.Since(t1), o.MainDif, len(o.BaseDif))
-	}
-	alice := txkit.FromChainsim(e.Ch.Acc("alice"))
-	bob := txkit.FromChainsim(e.Ch.Acc("bob"))
-	ok, num, seq, pub := txkit.Account(e.View, alice.Addr)
-	c.Logf("alice %v %d %d %v bal=%v", ok, num, seq, pub, txkit.Coins(e.View, alice.Addr))
-	send := func(k *txkit.Key, num, seq uint64, sessAddr *txkit.Key, msgs []std.Msg, fee std.Fee) []byte {
-		b := txkit.Body{Msgs: msgs, Fee: fee}
-		sig := std.Signature{PubKey: k.Pub, Signature: k.SignRaw(txkit.SignBytes(b, "dev", num, seq))}
-		if sessAddr != nil {
-			sig.SessionAddr = sessAddr.Addr
-		}
-		return chainsim.TxBytes(std.Tx{Msgs: msgs, Fee: fee, Signatures: []std.Signature{sig}})
-	}
-	show := func(label string, o *txkit.Obs) {
-		for _, r := range o.Res {
-			c.Logf("%s: ok=%v gw=%d gu=%d err=%s", label, r.OK, r.Res.GasWanted, r.Res.GasUsed, txkit.Clip(r.ErrString, 300))
-		}
-		c.Logf("   diff %s", o.DiffClasses())
-		for _, k := range o.MainDif {
-			c.Logf("     %q", k)
+	defer e.Ch.Close()
+	r.e = e
+	for _, n := range hist.Users {
+		h := mk(txkit.FromChainsim(e.Ch.Acc(n)), 0)
+		switch n {
+		case "alice":
+			w.alice = h
+		case "bob":
+			w.bob = h
+		case "carol":
+			w.carol = h
+		case "dave":
+			w.dave = h
 		}
 	}
-	o := e.Block(5, send(alice, num, seq, nil, []std.Msg{bank.MsgSend{FromAddress: alice.Addr, ToAddress: bob.Addr, Amount: txkit.Ugnot(100)}}, txkit.Fee(2_000_000, 2000)))
-	show("send", o)
-	sk := txkit.Ed("sess1")
-	o = e.Block(5, send(alice, num, seq+1, nil, []std.Msg{txkit.CreateSession(alice.Addr, sk, 0, []string{"*"}, txkit.Ugnot(5_000_000), 100)}, txkit.Fee(2_000_000, 2000)))
-	show("create", o)
-	da := txkit.Session(e.View, alice.Addr, sk.Addr)
-	c.Logf("session %+v", da)
-	o = e.Block(5, send(sk, da.GetAccountNumber(), 0, sk, []std.Msg{bank.MsgSend{FromAddress: alice.Addr, ToAddress: bob.Addr, Amount: txkit.Ugnot(100)}}, txkit.Fee(2_000_000, 2000)))
-	show("sess-send", o)
-	c.Logf("session %+v", txkit.Session(e.View, alice.Addr, sk.Addr))
-	body := fmt.Sprintf("package main\n\nimport (\n\t\"chain\"\n\t\"chain/banker\"\n)\n\nfunc main(cur realm) {\n\tb := banker.NewBanker(banker.BankerTypeRealmSend, cur)\n\tb.SendCoins(cur.Address(), address(%q), chain.Coins{chain.NewCoin(\"ugnot\", 777)})\n}\n", bob.Addr.String())
-	balA := txkit.Amount(e.View, alice.Addr, "ugnot")
-	o = e.Block(5, send(sk, da.GetAccountNumber(), 1, sk, []std.Msg{chainsim.MsgRun(e.Ch.Acc("alice"), body)}, txkit.Fee(20_000_000, 20000)))
-	show("sess-run-banker", o)
-	c.Logf("alice delta %d", balA-txkit.Amount(e.View, alice.Addr, "ugnot"))
-	c.Logf("session %+v", txkit.Session(e.View, alice.Addr, sk.Addr))
-	// call with send + deposit
-	balA = txkit.Amount(e.View, alice.Addr, "ugnot")
-	mc := chainsim.MsgCall(e.Ch.Acc("alice"), hist.StorePath, "BigGrow", "30")
-	mc.Send = txkit.Ugnot(1234)
-	o = e.Block(5, send(sk, da.GetAccountNumber(), 2, sk, []std.Msg{mc}, txkit.Fee(60_000_000, 60000)))
-	show("sess-call-send-deposit", o)
-	c.Logf("alice delta %d", balA-txkit.Amount(e.View, alice.Addr, "ugnot"))
-	c.Logf("session %+v", txkit.Session(e.View, alice.Addr, sk.Addr))
-	t1 := time.Now()
-	e.Ch.Restart()
-	c.Logf("restart %v", time.Since(t1))
-	o = e.Block(5)
-	show("after-restart", o)
-	c.Case("probe", true)
+	r.m.learn(e.View)
+	r.m.fees = txkit.Amount(e.View, txkit.FeeCollector(), "ugnot")
+	if bad := r.m.verify(e.View); len(bad) > 0 {
+		panic(fmt.Sprintf("genesis does not match the initial table: %v", bad))
+	}
+	thorough := !c.Quick()
+	nf, nb := 6, 10
+	if thorough {
+		nf, nb = 24, 60
+	}
+	for _, g := range p.groups {
+		if r.dead {
+			break
+		}
+		c.Logf("chain %s: group %s (height %d)", p.id, g, e.Ch.Height)
+		switch g {
+		case "single":
+			groupSingle(r, &w, nf, nb, thorough)
+		case "multi":
+			groupMulti(r, &w, nf, nb)
+		case "unknown":
+			groupUnknown(r, &w)
+		case "multisig":
+			groupMultisig(r, &w, nf, nb, thorough)
+		case "session":
+			groupSession(r, &w, nf, nb, thorough)
+		case "fees":
+			groupFees(r, &w)
+		}
+	}
+	lim := 25
+	if thorough {
+		lim = 0
+	}
+	c.Logf("chain %s: restart + resubmission of %d accepted txs (height %d)", p.id, len(r.kept), e.Ch.Height)
+	r.replayAll(lim)
+	c.Logf("chain %s: done at height %d", p.id, e.Ch.Height)
+}
+
+func has(a []string, s string) bool {
+	for _, x := range a {
+		if x == s {
+			return true
+		}
+	}
+	return false
+}
+
+// pickSome returns every mutation whose class is in must, plus up to n of the others (seeded).
+func pickSome(rng *rand.Rand, ms []mutation, n int) []mutation {
+	if n >= len(ms) {
+		return ms
+	}
+	idx := rng.Perm(len(ms))[:n]
+	keep := map[int]bool{}
+	for _, i := range idx {
+		keep[i] = true
+	}
+	var out []mutation
+	for i, m := range ms {
+		if keep[i] {
+			out = append(out, m)
+		}
+	}
+	return out
+}
+
+func groupSingle(r *runner, w *world, nf, nb int, thorough bool) {
+	// first use: neither account has a public key on chain yet
+	r.play(r.tplSend("send-secp256k1-first-use", w.alice, w.bob.addr), r.mutations(r.tplSend("x", w.alice, w.bob.addr), w.zed, nf, nb, false))
+	r.play(r.tplSend("send-ed25519-first-use", w.erin, w.bob.addr), r.mutations(r.tplSend("x", w.erin, w.bob.addr), w.zed, nf, nb, false))
+	// public key now stored: the same family again (public-key checks take the other branch)
+	t := r.tplSend("send-secp256k1", w.alice, w.carol.addr)
+	r.play(t, r.mutations(t, w.zed, nf, nb, thorough && r.id[0] == 'A' && r.id[1] == '0'))
+	t = r.tplSend("send-ed25519", w.erin, w.carol.addr)
+	r.play(t, r.mutations(t, w.zed, nf, nb, thorough && r.id[1] == '1'))
+	t = r.tplCall("call-secp256k1", w.alice)
+	r.play(t, pickSome(r.rng, r.mutations(t, w.zed, 2, 2, false), 12))
+	t = r.tplCall("call-ed25519", w.erin)
+	r.play(t, pickSome(r.rng, r.mutations(t, w.zed, 2, 2, false), 12))
+	t = r.tplFailing("failing-message", w.erin, w.bob.addr)
+	r.play(t, pickSome(r.rng, r.mutations(t, w.zed, 1, 1, false), 6))
+	// pay to a fresh address: the account appears, then signs for the first time
+	fresh := r.m.addKey(txkit.Ed("fresh-" + r.id))
+	r.keys[fresh.addr] = fresh.key
+	r.playValid(template{kind: "fund-fresh-account", body: txkit.Body{Msgs: []std.Msg{send(w.alice.addr, fresh.addr, 50_000_000)}, Fee: feeFor(gasSend)}, ids: []*holder{w.alice}})
+	t = r.tplSend("send-fresh-account-first-use", fresh, w.bob.addr)
+	r.play(t, pickSome(r.rng, r.mutations(t, w.zed, 2, 2, false), 14))
+}
+
+func groupMulti(r *runner, w *world, nf, nb int) {
+	// bob and fred have no public key yet: first use inside a multi-signer tx
+	t := r.tplMulti("multi-2-signers", []*holder{w.bob, w.fred}, w.dave.addr)
+	r.play(t, r.mutations(t, w.zed, nf/2+1, nb, false))
+	t = r.tplMulti("multi-3-signers-with-repeat", []*holder{w.bob, w.fred, w.bob, w.carol, w.fred}, w.dave.addr)
+	r.play(t, pickSome(r.rng, r.mutations(t, w.zed, 2, 4, false), 40))
+	t = r.tplMulti("multi-same-signer-3-messages", []*holder{w.carol, w.carol, w.carol}, w.dave.addr)
+	r.play(t, pickSome(r.rng, r.mutations(t, w.zed, 2, 2, false), 12))
+	// a failing message in a two-signer tx: both sequences still advance exactly once
+	f := r.tplMulti("multi-2-signers-failing", []*holder{w.fred, w.dave}, w.alice.addr)
+	f.body.Msgs = append(f.body.Msgs, send(w.dave.addr, w.alice.addr, 90_000_000_000_000))
+	r.play(f, pickSome(r.rng, r.mutations(f, w.zed, 1, 1, false), 8))
+}
+
+func groupUnknown(r *runner, w *world) {
+	t := r.tplSend("send-from-unfunded-key", w.nobody, w.bob.addr)
+	w.nobody.num = 999 // whatever a client would guess
+	for i := 0; i < 2; i++ {
+		r.step(2, txCase{kind: t.kind, mut: "unknown-account", bytes: enc(r.build(t.body, r.specs(t.ids)...))})
+	}
+	t2 := r.tplMulti("multi-with-unfunded-signer", []*holder{w.alice, w.nobody}, w.bob.addr)
+	r.step(2, txCase{kind: t2.kind, mut: "unknown-account", bytes: enc(r.build(t2.body, r.specs(t2.ids)...))})
+}
+
+func groupMultisig(r *runner, w *world, nf, nb int, thorough bool) {
+	t := r.tplSend("multisig-send", w.msig, w.bob.addr)
+	ms := append(r.multisigMutations(t, 0, w.zed), r.mutations(t, w.zed, nf, nb, false)...)
+	r.play(t, ms)
+	// stored public key now set
+	t = r.tplSend("multisig-send", w.msig, w.carol.addr)
+	ms = append(r.multisigMutations(t, 0, w.zed), pickSome(r.rng, r.mutations(t, w.zed, nf, nb, false), 25)...)
+	r.play(t, ms)
+	t = r.tplSend("multisig-1-of-2-send", w.msig1, w.carol.addr)
+	r.play(t, append(r.multisigMutations(t, 0, w.zed)[1:], pickSome(r.rng, r.mutations(t, w.zed, 2, 2, false), 10)...))
+	t = r.tplMulti("multi-multisig-and-plain", []*holder{w.msig, w.dave}, w.carol.addr)
+	r.play(t, append(r.multisigMutations(t, 0, w.zed), pickSome(r.rng, r.mutations(t, w.zed, 2, 3, false), 25)...))
+	// 8 sub-keys exceed the per-transaction signature limit (7): never verifiable
+	t = r.tplSend("multisig-8-subkeys", w.big8, w.bob.addr)
+	r.step(2, txCase{kind: t.kind, mut: "too-many-subkeys", bytes: enc(r.build(t.body, r.specs(t.ids)...))})
+	if thorough && r.id[1] == '0' {
+		t = r.tplSend("multisig-send", w.msig, w.dave.addr)
+		all := r.mutations(t, w.zed, 0, 0, true)
+		var flips []mutation
+		for _, m := range all {
+			if mutClass(m.label) == "sigflip" {
+				flips = append(flips, m)
+			}
+		}
+		r.play(t, flips)
+	}
+}
+
+func groupFees(r *runner, w *world) {
+	// poor holds 30_000 ugnot
+	mkBody := func(fee int64, amt int64) txkit.Body {
+		return txkit.Body{Msgs: []std.Msg{send(w.poor.addr, w.bob.addr, amt)}, Fee: txkit.Fee(gasSend, fee)}
+	}
+	one := func(kind, mut string, b txkit.Body) {
+		r.step(2, txCase{kind: kind, mut: mut, bytes: enc(r.build(b, r.spec(w.poor)))})
+	}
+	one("poor-send", "fee-above-balance", mkBody(30_001, 1))
+	one("poor-send", "fee-far-above-balance", mkBody(5_000_000, 1))
+	one("poor-send", "", mkBody(12_000, 1000)) // 17_000 left
+	one("poor-send", "fee-above-balance", mkBody(17_001, 1))
+	one("poor-send", "", mkBody(17_000, 1)) // fee takes everything: the send then fails, fee and sequence stay
+	one("poor-send", "fee-above-balance", mkBody(1, 1))
+	groupCheckTx(r, w)
+}
+
+// groupCheckTx: the minimum-fee rules only exist in the mempool check. A
+// transaction refused there must leave the check state untouched (the
+// correctly priced transaction with the same sequence is admitted right
+// after) and nothing may reach committed state.
+func groupCheckTx(r *runner, w *world) {
+	if r.dead {
+		return
+	}
+	gas := int64(gasSend)
+	// node minimum 3ugnot/1000gas => 15000; block gas price 1ugnot/1000gas => 5000
+	for _, tc := range []struct {
+		label string
+		fee   int64
+		admit bool
+	}{{"below-block-gas-price", gas/1000 - 1, false}, {"below-node-min-gas-price", gas*3/1000 - 1, false}, {"zero-fee", 0, false}, {"at-node-min", gas * 3 / 1000, true}} {
+		b := txkit.Body{Msgs: []std.Msg{send(w.zed.addr, w.bob.addr, 5)}, Fee: txkit.Fee(gas, tc.fee)}
+		raw := enc(r.build(b, r.spec(w.zed)))
+		res := r.e.CheckTx(raw)
+		r.c.Case(fmt.Sprintf("%s/checktx/%s", r.id, tc.label), !tc.admit)
+		r.c.Count("tx_delivered", 1)
+		wit := map[string]any{"chain": r.id, "case": tc.label, "gas_wanted": gas, "fee_ugnot": tc.fee, "min_gas_prices": "3ugnot/1000gas", "block_gas_price": "1ugnot/1000gas", "error": fmt.Sprint(res.Error)}
+		if (res.Error == nil) != tc.admit {
+			key := "checktx-underpriced-tx-admitted:" + tc.label
+			if tc.admit {
+				key = "checktx-priced-tx-refused"
+			}
+			r.c.Violation(key, wit, "chain %s: CheckTx of a send with gas %d and fee %dugnot: admitted=%v, fee rule says %v (%v)", r.id, gas, tc.fee, res.Error == nil, tc.admit, res.Error)
+			r.dead = true
+			return
+		}
+		if !tc.admit {
+			r.c.Count("checktx_fee_rejections", 1)
+			// the refusal must not have consumed the sequence in the check state
+			good := txkit.Body{Msgs: b.Msgs, Fee: txkit.Fee(gas, gas*3/1000)}
+			res2 := r.e.CheckTx(enc(r.build(good, r.spec(w.zed))))
+			if res2.Error != nil {
+				r.c.Violation("checktx-refusal-changed-check-state:"+tc.label, wit, "chain %s: after CheckTx refused the under-priced tx (%s), the correctly priced tx with the same sequence is refused too: %v", r.id, tc.label, res2.Error)
+				r.dead = true
+				return
+			}
+		}
+		// committing a block resets the check state; nothing of the above may be in committed state
+		o := r.step(2)
+		if o != nil && !o.Empty() {
+			r.c.Violation("checktx-reached-committed-state:"+tc.label, wit, "chain %s: an empty block after CheckTx calls changed committed state: %s", r.id, o.DiffClasses())
+			r.dead = true
+			return
+		}
+	}
 }
